@@ -13,7 +13,7 @@ RULE = ("xtext/rt probes on all five codec functions: every Unicode scalar value
         "euro,emoji}; decoders also on the encoders' outputs and on near-miss spellings; round trips judged by the codec laws. "
         "e2e probe: real client -> real server with every string-valued option from the alphabet. "
         "non-trivial = the string contains an octet that needs encoding; distinct = distinct case line")
-THEOREMS = ["C14_xtext_roundtrip", "C14_monitor_model", "C14_tokenise", "C14_params_parse", "C14_mail_options_trip", "C14_rcpt_options_trip"]
+THEOREMS = ["C14_xtext_roundtrip", "C14_monitor_model", "C14_tokenise", "C14_params_parse", "C14_mail_options_trip", "C14_rcpt_options_trip", "C14_mail_line_trip", "C14_rcpt_line_trip"]
 KNOWN = {}
 NEEDS = set(b"+= \\\x7f\t") | set(range(0x80, 0x100)) | set(range(0, 0x20))
 nontrivial = lambda case, ans: case.startswith("e2e") or any(b in NEEDS for b in unhx(case.split("\t")[2]))
